@@ -199,9 +199,27 @@ def check_program(program, st, report):
 
 
 def _prefixes(ds, ref, dem, log, n, top, st, report):
+    it = None
+    try:
+        return _prefixes_inner(ds, ref, dem, log, n, top, st, report, lambda x: it_box.append(x))
+    finally:
+        for g in it_box:
+            try:
+                g.close()
+            except BaseException:       # noqa: BLE001
+                pass
+        del it_box[:]
+
+
+it_box = []
+
+
+def _prefixes_inner(ds, ref, dem, log, n, top, st, report, keep):
     try:
         with O.deadline(20):
             it = iter(ds)
+            if hasattr(it, 'close'):
+                keep(it)
             if log:
                 report(f'runs-at-iter-creation/{top}', f'iter(ds) called {log}')
                 return ref
